@@ -89,6 +89,7 @@ type c19Case struct {
 	// manager
 	DepRepo    string `json:"dep_repo,omitempty"`
 	SkipUpdate bool   `json:"skip_update,omitempty"`
+	Build      bool   `json:"build,omitempty"` // Manager.Build from the lock file an Update wrote first
 	// server behaviour: host+path -> Location ; host+path answered 404 ; provenance files served?
 	Redirect map[string]string `json:"redirect,omitempty"`
 	Missing  []string          `json:"missing,omitempty"`
@@ -551,6 +552,7 @@ func c19Gen(r *rand.Rand, kind string) c19Case {
 		default:
 			c.DepRepo = target.URL
 		}
+		c.Build = len(c.AdhocURLs) == 0 && r.Intn(3) == 0 // Build needs every repository configured
 		if r.Intn(3) == 0 {
 			// an EARLIER credential-less repository on a related origin lists the same absolute
 			// URL as the (private) repository the chart depends on: scanReposForURL picks it
@@ -641,6 +643,10 @@ func (*c19) Corpus() []any {
 			{Name: "public", URL: "https://public.example/charts", URLs: []string{"https://public.example/charts/a-1.0.0.tgz"}},
 			{Name: "private", URL: "https://private.corp.test/charts", User: "user-private", Pass: "pw-private", URLs: []string{"https://public.example/charts/a-1.0.0.tgz"}}},
 			Note: "manager-foreign-owner"},
+		c19Case{Kind: "manager", Build: true, DepRepo: "https://private.corp.test/charts", SkipUpdate: true, Repos: []c19Repo{
+			{Name: "public", URL: "https://public.example/charts", URLs: []string{"https://public.example/charts/a-1.0.0.tgz"}},
+			{Name: "private", URL: "https://private.corp.test/charts", User: "user-private", Pass: "pw-private", URLs: []string{"https://public.example/charts/a-1.0.0.tgz"}}},
+			Note: "manager-build-foreign-owner"},
 		// the same with an owner that differs from the private repository in the scheme only
 		c19Case{Kind: "manager", DepRepo: "https://private.corp.test/charts", SkipUpdate: true, Repos: []c19Repo{
 			{Name: "plain", URL: "http://private.corp.test/charts", URLs: []string{"http://private.corp.test/charts/a-1.0.0.tgz"}},
@@ -796,7 +802,18 @@ func (p *c19) Execute(ci any) (res any) {
 			os.WriteFile(filepath.Join(cdir, "Chart.yaml"), b, 0o644)
 			m := &downloader.Manager{Out: io.Discard, ChartPath: cdir, Getters: getter.All(settings), RepositoryConfig: rcfg,
 				RepositoryCache: cache, SkipUpdate: c.SkipUpdate, Verify: downloader.VerificationStrategy(c.Verify)}
-			err = m.Update()
+			if c.Build {
+				// Update writes Chart.lock and charts/; the run under observation is the Build
+				// from that lock file (hasAllRepos, [UpdateRepositories], downloadAll(lock))
+				_ = m.Update()
+				os.RemoveAll(filepath.Join(cdir, "charts"))
+				e.mu.Lock()
+				e.reqs = nil
+				e.mu.Unlock()
+				err = m.Build()
+			} else {
+				err = m.Update()
+			}
 		}
 		obs.Failed = err != nil
 	}()
@@ -1255,7 +1272,11 @@ func (*c19) Class(ci, oi any) string {
 	if len(obs.Reqs) == 0 {
 		sent = "no-request"
 	}
-	return c.Kind + "/" + sent + follow
+	kind := c.Kind
+	if c.Build {
+		kind += "-build"
+	}
+	return kind + "/" + sent + follow
 }
 
 func (*c19) NonTrivial(ci, oi any) bool {
